@@ -74,6 +74,7 @@ class World(object):
         self.tasks = {}      # uid -> (named pid or None, batch)
         self.added_ever = set()
         self.finished = set()
+        self.true_state = {}  # pid -> furthest state reported on any channel
         self.n = 0
         self.batch = 0
         self.calls = 0
@@ -90,7 +91,8 @@ class World(object):
                     inf = p.get('info') or {}
                     n_added = sum(1 for d in s._pilots.values()
                                   if d['role'] == m_tb.ADDED)
-                    w.fwd.append((t['uid'], pid, p.get('role'), p.get('state'),
+                    w.fwd.append((t['uid'], pid, p.get('role'),
+                                  w.true_state.get(pid, p.get('state')),
                                   inf.get('used'), n_added, w.calls))
                     trace('forward', t['uid'], pid, p.get('role'),
                           p.get('state'))
@@ -105,9 +107,17 @@ class World(object):
         s._pids      = list()
         s._idx       = 0
 
-    def pilot_doc(self, i):
-        return {'uid': PIDS[i], 'type': 'pilot', 'state': rps.PMGR_LAUNCHING,
+    def pilot_doc(self, i, state=rps.PMGR_LAUNCHING):
+        return {'uid': PIDS[i], 'type': 'pilot', 'state': state,
                 'description': {'cores': self.cores[i]}}
+
+    def _saw(self, pid, state):
+        # pilot states only move forward: what counts is the furthest state
+        # any notification or command snapshot has reported so far
+        cur = self.true_state.get(pid)
+        if cur is None or rps._pilot_state_value(state) > \
+                          rps._pilot_state_value(cur):
+            self.true_state[pid] = state
 
     # -- events; return False when the real code refused the command
     def submit(self, named):
@@ -127,10 +137,12 @@ class World(object):
         real(self.s.work, tasks)
         return True
 
-    def add(self, idxs):
+    def add(self, idxs, state=rps.PMGR_LAUNCHING):
         msg = {'cmd': 'add_pilots', 'arg': {'tmgr': 'tmgr.0000',
-               'pilots': [self.pilot_doc(i) for i in idxs]}}
-        trace('add', idxs)
+               'pilots': [self.pilot_doc(i, state) for i in idxs]}}
+        trace('add', idxs, state)
+        for i in idxs:
+            self._saw(PIDS[i], state)
         try:
             self.s.control_cb(rpc.CONTROL_PUBSUB, msg)
         except ValueError:
@@ -152,6 +164,7 @@ class World(object):
 
     def pilot_state(self, i, state):
         trace('pilot state', i, state)
+        self._saw(PIDS[i], state)
         try:
             self.s._base_state_cb(rpc.STATE_PUBSUB, {'cmd': 'update', 'arg': [
                 {'type': 'pilot', 'uid': PIDS[i], 'state': state}]})
@@ -182,7 +195,11 @@ class World(object):
                                       {'cmd': 'update', 'arg': docs})
             except RuntimeError as e:
                 trace('state cb raised', repr(e))
-            self.finished.update(d['uid'] for d in docs)
+            # a task occupies its pilot until it reports a state beyond
+            # AGENT_EXECUTING
+            if rps._task_state_value(state) > \
+               rps._task_state_value(rps.AGENT_EXECUTING):
+                self.finished.update(d['uid'] for d in docs)
         return True
 
     # -- oracle
@@ -346,19 +363,21 @@ def h_early(kind, a, b, c, d, e):
 
 # ------------------------------------------------------------------------------
 @obligation(params={'c0': (0, 3), 'n': (1, 5), 'fin': (0, 2), 'dup': 'bool',
-                    'act_first': 'bool', 'again': (0, 2)},
+                    'act_first': 'bool', 'again': (0, 2), 'execn': 'bool'},
+            partition={'quick': ('n', 5), 'thorough': ('n', 5)},
             timeout={'quick': 300, 'thorough': 900},
             funcs=['radical/pilot/tmgr/scheduler/backfilling.py:Backfilling.'
                    + n for n in ('add_pilots', 'update_pilots', 'update_tasks',
                                  '_work', '_schedule_tasks')],
             bounds='Backfilling with one pilot of 1/2/4/8 cores (hwm 200%); '
                    'n=1..5 tasks of 2 cores; pilot becomes ACTIVE before or '
-                   'after the submission; optionally a further scheduling pass '
+                   'after the submission; optionally all assigned tasks report '
+                   'AGENT_EXECUTING; optionally a further scheduling pass '
                    '(another submission / a pilot state notification + a second '
                    'pilot); then every assigned task reports '
                    'AGENT_STAGING_OUTPUT_PENDING / DONE / FAILED (optionally '
                    'twice)')
-def h_backfill_hwm(c0, n, fin, dup, act_first, again):
+def h_backfill_hwm(c0, n, fin, dup, act_first, again, execn):
     """never beyond the high-water mark; usage returns to zero"""
     c0, n, fin = conc(c0, 0, 3), conc(n, 1, 5), conc(fin, 0, 2)
     again = conc(again, 0, 2)
@@ -371,6 +390,9 @@ def h_backfill_hwm(c0, n, fin, dup, act_first, again):
     if not act_first:
         check(not w.fwd, 'assigned before the pilot was ACTIVE')
         w.pilot_state(0, rps.PMGR_ACTIVE)
+    # tasks which start to execute still occupy their pilot
+    if execn:
+        w.finish_tasks(0, rps.AGENT_EXECUTING)
     # further scheduling passes while nothing has finished
     if again == 1:
         w.submit([None])
@@ -438,3 +460,52 @@ def h_backfill_named(named_first, n_unnamed, fin, early):
     info = w.s._pilots[PIDS[1]]['info']
     check(info['used'] == 0, 'usage figure %s after all tasks finished',
           info['used'])
+
+
+# ------------------------------------------------------------------------------
+NOTES = [[], [rps.PMGR_ACTIVE], [rps.PMGR_ACTIVE, rps.DONE], [rps.FAILED],
+         [rps.PMGR_ACTIVE, rps.FAILED], [rps.DONE, rps.PMGR_ACTIVE],
+         [rps.PMGR_ACTIVE_PENDING]]
+
+
+@obligation(params={'kind': (0, 1), 'pre': (0, 6), 'snap': (0, 2),
+                    'readd': 'bool', 'post': (0, 2), 'early': 'bool'},
+            partition={'quick': ('pre', 7), 'thorough': ('pre', 7)},
+            timeout={'quick': 300, 'thorough': 600},
+            funcs=FUNCS_B + ['radical/pilot/tmgr/scheduler/backfilling.py:'
+                             'Backfilling._schedule_tasks'],
+            bounds='one pilot; 0..2 state notifications arrive before the '
+                   'add_pilots command (7 sequences incl. out of order and '
+                   'final ones); the command carries a snapshot of the pilot in '
+                   'state LAUNCHING / ACTIVE_PENDING / ACTIVE (possibly stale); '
+                   'optionally the pilot is removed and added again; 0..1 '
+                   'notification afterwards (ACTIVE / DONE); one unnamed task '
+                   'submitted before everything or at the end')
+def h_stale_add(kind, pre, snap, readd, post, early):
+    """what the scheduler was told about a pilot is not forgotten on add"""
+    kind, pre, snap = conc(kind, 0, 1), conc(pre, 0, 6), conc(snap, 0, 2)
+    post = conc(post, 0, 2)
+    w = World(kind)
+    if early:
+        w.submit([None])
+    for st in NOTES[pre]:
+        w.pilot_state(0, st)
+    sn = [rps.PMGR_LAUNCHING, rps.PMGR_ACTIVE_PENDING, rps.PMGR_ACTIVE][snap]
+    if not w.add([0], sn): return
+    if readd:
+        if not w.remove(0): return
+        if not w.add([0], sn): return
+    if post:
+        w.pilot_state(0, [rps.PMGR_ACTIVE, rps.DONE][post - 1])
+    if not early:
+        w.submit([None])
+    reach()
+    w.check_all()
+    if kind == 1:
+        true = w.true_state.get(PIDS[0])
+        if true == rps.PMGR_ACTIVE:
+            check(len(w.fwd) == 1, 'pilot is ACTIVE and added but the task '
+                  'waits (forwarded: %s)', w.fwd)
+        for f in w.fwd:
+            check(f[3] == rps.PMGR_ACTIVE, 'task forwarded to %s whose '
+                  'furthest reported state was %s at that moment', f[1], f[3])
